@@ -9,6 +9,7 @@
 -/
 import TE.Driver.Fam
 import TE.Model.Text
+import TE.Model.Fams
 import TE.Spec.Text
 namespace TE.Driver
 open TE TE.Text
@@ -72,22 +73,19 @@ def wilArgs (a : Args) : Except Err (List Sent × List Sent) := do
 def famWer (_ : Args) : Except String Fam := pure {
   stat := fun a => do
     let (i, t) ← sameTypeArgs a
-    let (e, n) := werUpdate i t
-    pure [[e], [n]]
+    Fams.werStat (i, t)
   outA := fun p => .ok (showScalarX (werCompute (part0 p 0) (part0 p 1))) }
 
 def famWip (_ : Args) : Except String Fam := pure {
   stat := fun a => do
     let (i, t) ← sameTypeArgs a
-    let (c, n, m) := wipUpdate i t
-    pure [[c], [n], [m]]
+    Fams.wipStat (i, t)
   outA := fun p => .ok (showScalarX (wipCompute (part0 p 0) (part0 p 1) (part0 p 2))) }
 
 def famWil (_ : Args) : Except String Fam := pure {
   stat := fun a => do
     let (i, t) ← wilArgs a
-    let (c, n, m) := wilUpdate i t
-    pure [[c], [n], [m]]
+    Fams.wilStat (i, t)
   outA := fun p => .ok (showScalarX (wilCompute (part0 p 0) (part0 p 1) (part0 p 2))) }
 
 def pairsOf (a : Args) : Except Err (List (Sent × Sent)) := do
@@ -172,8 +170,7 @@ def famBleu (cfg : Args) : Except String Fam := do
   pure {
     stat := fun a => do
       let (i, g) ← bleuArgs a
-      let s ← bleuUpdate n i g
-      pure [[(s.inputLen : Nat)], [(s.targetLen : Nat)], natQ s.matchesBy, natQ s.possibleBy]
+      Fams.bleuStat n (i, g)
     outA := fun p =>
       let ms := part p 2 n
       if qsum ms = 0 then .ok (showScalarX (.val 0)) else
